@@ -853,7 +853,7 @@ peepNegate(Foam foam)
 	else if (argc == 2 
 		 && peepBValOpInfo[bopInfo->peepOp].dual != OpNone
 		 && (peepNoSideFx(arg->foamBCall.argv[0])
-		     || peepNoSideFx(arg->foamBCall.argv[1]))) {
+		     && peepNoSideFx(arg->foamBCall.argv[1]))) {
 		/* Deal with an inverse/dual relationship */
 		new = peepMakeBinaryOp(peepBValOpInfo[bopInfo->peepOp].dual,
 				       bopInfo->type, 
@@ -966,6 +966,9 @@ peepAdditiveOp(FoamTag type, BValOp bop, Foam lhs, Foam rhs)
 	if (bop == OpPlus) {
 		/* (-a) + b ==> b - a */
 		pos = peepPositive(lhs);
+		/* Swapping the operands changes their order of evaluation. */
+		if (pos && !(peepNoSideFx(lhs) && peepNoSideFx(rhs)))
+			pos = NULL;
 		if (pos) {
 			tmp = lhs;
 			lhs = rhs;
